@@ -94,7 +94,22 @@ pub fn check_program(
             if v >= p.nl() && !cfg.intermediates && v != ps.root {
                 continue;
             }
-            let adj = match ref_adjoint(p, mask, ps.root, ps.seed.as_deref(), v, &base) {
+            // the adjoint of the root itself is the seed (no differentiation needed)
+            let direct = if v == ps.root {
+                let n = base[v].len();
+                Some(T {
+                    dims: base[v].dims.clone(),
+                    x: (0..n)
+                        .map(|i| {
+                            let sv = ps.seed.as_ref().map(|s| s[i]).unwrap_or(1.0);
+                            Du { v: 0.0, d: sv, m: 0.0, md: sv.abs(), ex: sv.fract() == 0.0, amb: false }
+                        })
+                        .collect(),
+                })
+            } else {
+                None
+            };
+            let adj = match direct.map(Ok).unwrap_or_else(|| ref_adjoint(p, mask, ps.root, ps.seed.as_deref(), v, &base)) {
                 Ok(a) => a,
                 Err(_) => {
                     l.count("skipped_domain");
